@@ -22,6 +22,7 @@ FUNCTIONS = [
     "autoarray.fit.fit_interferometer.FitInterferometer.chi_squared_map",
     "autoarray.fit.fit_interferometer.FitInterferometer.chi_squared",
     "autoarray.fit.fit_interferometer.FitInterferometer.noise_normalization",
+    "autoarray.fit.fit_interferometer.FitInterferometer.signal_to_noise_map",
     "autoarray.fit.fit_util.residual_map_with_mask_from",
     "autoarray.fit.fit_util.normalized_residual_map_with_mask_from",
     "autoarray.fit.fit_util.chi_squared_map_with_mask_from",
@@ -87,7 +88,8 @@ BOUNDS = {
              "contents; all masks of 1x2, 1x3, 2x2, both modes, sky symbolic, without inversion and with the object list R1M1. Complex "
              "(interferometer) statistics: the four fit_util.*_complex_from functions and FitInterferometer (on a dataset stand-in, no transformer) "
              "residual / normalized-residual / chi-squared maps, chi_squared, reduced_chi_squared, noise_normalization, log_likelihood, figure_of_merit "
-             "for N = 1,2,3 visibilities whose real and imaginary data, model and noise parts are 6N independent solver variables (noise parts > 0)",
+             "for N = 1,2,3 visibilities whose real and imaginary data, model and noise parts are 6N independent solver variables (noise parts > 0); FitInterferometer.signal_to_noise_map (clipping per component, forks per "
+             "component) for N = 1,2,3",
     "thorough": "same, shapes additionally 2x4,4x2,1x7,2x5,3x4 for the fit statistics (residual-flux-fraction <= 10 pixels incl. 3x3, signal-to-noise <= 6 pixels, "
                 "fit_util <= 10 pixels); evidence additionally for object lists R3,M2,U2M2,R2U2,U1R1N1M1,M2R2,R2R1,M1M2,U2M1U1,R1M1R1,U1M3U1,M1U2R1,N2R1 and masks of 2x3; read-order cases additionally 1x4 (both modes) and "
                 "2x3 (slim mode), with inversion up to 4 pixels; in-place update cases additionally 2x3; complex statistics additionally N = 4, 6",
@@ -97,7 +99,7 @@ OUTSIDE = [
     "the curvature matrix F and the reconstruction s themselves (handed to AbstractInversion through its cached-property slots; they are C03-C05's "
     "subject), real mappers/regularization schemes (the regularization matrix is assembled by the real LinearObj/AbstractInversion code from "
     "symbolic per-object blocks)",
-    "the Interferometer dataset class / transformers / dirty images (need pylops), FitInterferometer.signal_to_noise_map, the Visibilities "
+    "the Interferometer dataset class / transformers / dirty images (need pylops), the Visibilities "
     "structures on symbolic values (the symbolic run feeds FitInterferometer a harness-level complex vector, the float64 validation / replay "
     "real aa.Visibilities), the noise-covariance chi-squared branch, the pylops inversion",
     "values of the maps in MASKED pixels of masked-native mode (the property only speaks about unmasked pixels; e.g. zero-filling is not demanded)",
@@ -460,6 +462,16 @@ def POST_INSTALL():
 
     V.SymReal.__mul__ = mul
     V.SymReal.__rmul__ = mul
+
+    orig_add = V.SymReal.__add__
+
+    def add(self, o):
+        if isinstance(o, complex):
+            return _SymC(orig_add(self, o.real), np.float64(o.imag))
+        return orig_add(self, o)
+
+    V.SymReal.__add__ = add
+    V.SymReal.__radd__ = add
 
     abstract.csc_matrix = csc_matrix
     abstract.splu = splu
@@ -1094,8 +1106,41 @@ def case_complex(ctx, N):
     _run(ctx, body_complex, inputs, {"N": N}, validate_every=1)
 
 
+def body_complex_snr(inp, N):
+    """FitInterferometer.signal_to_noise_map: data/noise per component, negatives clipped to zero in EACH component"""
+    from types import SimpleNamespace
+    import autoarray as aa
+    g = {k: list(np.asarray(inp[k], dtype=object).reshape(N)) for k in ("dr", "di", "mr", "mi", "nr", "ni")}
+    sym = any(shim.has_sym(v) for v in g.values())
+    data, model, noise = _cvec(g["dr"], g["di"]), _cvec(g["mr"], g["mi"]), _cvec(g["nr"], g["ni"])
+    if not sym:
+        data, noise, model = aa.Visibilities(visibilities=data), aa.VisibilitiesNoiseMap(visibilities=noise), aa.Visibilities(visibilities=model)
+
+    class _FitI(aa.FitInterferometer):
+        model_data = property(lambda self: model)
+
+    fit = _FitI(dataset=SimpleNamespace(data=data, noise_map=noise, noise_covariance_matrix=None), use_mask_in_fit=False)
+    A, E = {}, {}
+    A["fit.signal_to_noise_map"] = _cparts(hx.attempt(lambda: fit.signal_to_noise_map))
+    E["fit.signal_to_noise_map"] = [_clip0(a / q) for a, q in zip(g["dr"], g["nr"])] + [_clip0(a / q) for a, q in zip(g["di"], g["ni"])]
+    # reading it must not disturb the statistics of the same fit object
+    rr = [a - b for a, b in zip(g["dr"], g["mr"])] + [a - b for a, b in zip(g["di"], g["mi"])]
+    A["fit.residual_map_after"] = _cparts(hx.attempt(lambda: fit.residual_map))
+    E["fit.residual_map_after"] = rr
+    return A, E
+
+
+def case_complex_snr(ctx, N):
+    inputs = {k: V.real_array(k, (N,)) for k in ("dr", "di", "mr", "mi", "nr", "ni")}
+    for k in ("nr", "ni"):
+        for e in inputs[k]:
+            ctx.assume(e.t > 0)
+    ctx.set_case(N=N)
+    _run(ctx, body_complex_snr, inputs, {"N": N}, validate_every=4)
+
+
 BODIES = {"case_fit": body_fit, "case_snr": body_snr, "case_rff": body_rff, "case_util": body_util, "case_evidence": body_evidence,
-          "case_order": body_order, "case_update": body_update, "case_complex": body_complex}
+          "case_order": body_order, "case_update": body_update, "case_complex": body_complex, "case_complex_snr": body_complex_snr}
 
 CONFIGS_Q = ["M1", "R2", "U1", "U1N1", "M2U1", "U1M2", "R1M2", "M1R2", "U1M2U1", "R1U1M1", "U1N1R2", "M1U1R1U1", "R1N1"]
 CONFIGS_T = CONFIGS_Q + ["R3", "M2", "U2M2", "R2U2", "U1R1N1M1", "M2R2", "R2R1", "M1M2", "U2M1U1", "R1M1R1", "U1M3U1", "M1U2R1", "N2R1"]
@@ -1139,6 +1184,8 @@ def cases(tier):
                 out.append(("case_evidence", {"H": H, "W": W, "native": native, "config": config}))
     for N in ((1, 2, 3) if quick else (1, 2, 3, 4, 6)):
         out.append(("case_complex", {"N": N}))
+        if N <= 3:
+            out.append(("case_complex_snr", {"N": N}))
     out.sort(key=lambda c: -(c[1].get("H", 1) * c[1].get("W", 1) * (4 if c[0] in ("case_snr", "case_order") else 1)))
     return out
 
